@@ -237,8 +237,13 @@ def protoRuleToHnsRules (s : IPSets) (policyId : String) (r : Rule) (inbound : B
         match getIPPortMembers s r.dstIpPortSets with
         | none => .error .missingIPSet
         | some ms =>
-          .ok ((groupIPPorts ms).zipIdx.map fun (g, i) =>
-            { base with rAddrs := g.2.2, rPorts := [⟨g.2.1, g.2.1⟩], proto := g.1, id := mkId policyId r.ruleId i })
+          -- (commit 44f8f9c) the rule's protocol filters the members, its source ports become LocalPorts
+          let ruleProtocol := (withProto base r.proto).proto
+          let groups := (groupIPPorts ms).filter fun g => ruleProtocol == 256 || g.1 == ruleProtocol
+          let combos := groups.flatMap fun g => (splitList r.srcPorts n).map fun sp => (g, sp)
+          .ok (combos.zipIdx.map fun (c, i) =>
+            { base with rAddrs := c.1.2.2, rPorts := [⟨c.1.2.1, c.1.2.1⟩], proto := c.1.1, lPorts := c.2,
+                        id := mkId policyId r.ruleId i })
       else
         let base := withProto base r.proto
         match sideAddrs s srcNet r.srcSets with
